@@ -459,3 +459,123 @@ pub fn c17_guard() {
 fn k_c17_guard() {
   c17_guard()
 }
+
+// ---------------------------------------------------------------------- C07/C08: the `_at` forms with the clock as a symbolic variable
+
+use std::future::Future;
+use std::time::{Duration as StdDuration, Instant as StdInstant};
+
+pub static mut VNOW: u64 = 0;
+pub static mut REQUESTED: [u64; 4] = [u64::MAX; 4];
+pub static mut NREQ: usize = 0;
+
+/// stub for `std::time::Instant::now` under Kani: a symbolic "now" (whole seconds)
+pub fn now_stub() -> StdInstant {
+  let zero: StdInstant = unsafe { std::mem::zeroed() };
+  zero + StdDuration::from_secs(unsafe { VNOW })
+}
+
+/// A scheduler that records the requested delay and runs the task at once.
+#[derive(Clone, Copy)]
+pub struct Immediate;
+impl<T> Scheduler<T> for Immediate
+where
+  T: Future,
+{
+  fn schedule(&self, task: T, delay: Option<StdDuration>) -> TaskHandle<T::Output> {
+    unsafe {
+      if NREQ < 4 {
+        REQUESTED[NREQ] = delay.map_or(0, |d| d.as_secs());
+        NREQ += 1;
+      }
+    }
+    let waker = noop_waker();
+    let mut cx = std::task::Context::from_waker(&waker);
+    let mut task = std::pin::pin!(task);
+    match task.as_mut().poll(&mut cx) {
+      std::task::Poll::Ready(v) => TaskHandle::value_handle(v),
+      std::task::Poll::Pending => panic!("harness task is not immediately ready"),
+    }
+  }
+}
+fn noop_waker() -> std::task::Waker {
+  use std::task::{RawWaker, RawWakerVTable, Waker};
+  fn clone(_: *const ()) -> RawWaker {
+    RawWaker::new(std::ptr::null(), &VT)
+  }
+  fn noop(_: *const ()) {}
+  static VT: RawWakerVTable = RawWakerVTable::new(clone, noop, noop, noop);
+  unsafe { Waker::from_raw(RawWaker::new(std::ptr::null(), &VT)) }
+}
+
+macro_rules! at_harness {
+  ($fname:ident, $kname:ident, |$at:ident| $build:expr) => {
+    /// requested delay = time remaining until the instant, for every (now, at) in 0..=2000 s
+    pub fn $fname() {
+      reset();
+      unsafe {
+        NREQ = 0;
+        REQUESTED = [u64::MAX; 4];
+      }
+      let now_s = nd::u64();
+      let at_s = nd::u64();
+      nd::assume(now_s <= 2000 && at_s <= 2000);
+      #[cfg(kani)]
+      let $at: StdInstant = {
+        unsafe { VNOW = now_s };
+        let zero: StdInstant = unsafe { std::mem::zeroed() };
+        zero + StdDuration::from_secs(at_s)
+      };
+      #[cfg(not(kani))]
+      let $at: StdInstant = {
+        let n = StdInstant::now();
+        if at_s >= now_s {
+          n + StdDuration::from_secs(at_s - now_s)
+        } else {
+          n.checked_sub(StdDuration::from_secs(now_s - at_s)).unwrap_or(n)
+        }
+      };
+      $build;
+      let want = if at_s > now_s { at_s - now_s } else { 0 };
+      let mut found = false;
+      let mut i = 0;
+      while i < 4 {
+        let r = unsafe { REQUESTED[i] };
+        // natively the real clock moves on between computing `at` and the call: allow one second
+        if r != u64::MAX && (r == want || (cfg!(not(kani)) && r + 1 == want)) {
+          found = true;
+        }
+        i += 1;
+      }
+      crate::cover!(at_s > now_s + 5, "instant in the future");
+      crate::cover!(at_s < now_s, "instant in the past");
+      // only "never earlier" is claimed: a future instant must produce a request of the remaining time
+      if want > 0 {
+        assert!(found, "the `_at` form did not request the time remaining until the instant");
+      }
+    }
+    #[cfg(kani)]
+    #[kani::proof]
+    #[kani::stub(std::time::Instant::now, now_stub)]
+    #[kani::unwind(6)]
+    fn $kname() {
+      $fname()
+    }
+  };
+}
+
+at_harness!(c07_delay_at, k_c07_delay_at, |at| observable::of(1u8).delay_at(at, Immediate).actual_subscribe(ProbeI));
+at_harness!(c07_delay_subscription_at, k_c07_delay_subscription_at, |at| observable::of(1u8).delay_subscription_at(at, Immediate).actual_subscribe(ProbeI));
+at_harness!(c07_timer_at, k_c07_timer_at, |at| observable::timer_at(1u8, at, Immediate).actual_subscribe(ProbeI));
+
+/// infallible-error probe for the sources above
+#[derive(Clone, Copy)]
+pub struct ProbeI;
+impl Observer<u8, std::convert::Infallible> for ProbeI {
+  fn next(&mut self, _v: u8) {}
+  fn error(self, _e: std::convert::Infallible) {}
+  fn complete(self) {}
+  fn is_finished(&self) -> bool {
+    false
+  }
+}
